@@ -270,7 +270,7 @@ func newWorker(x *Explorer, id int) (*worker, error) {
 	if id == 0 && x.h.QueryLog != "" {
 		logPath = x.h.QueryLog
 	}
-	sv, err := NewSolverLog(st, x.cfg.TimeoutMs, logPath, 400)
+	sv, err := NewSolverLog(st, x.cfg.TimeoutMs, logPath, 150)
 	if err != nil {
 		return nil, err
 	}
